@@ -1007,7 +1007,10 @@ func (s *Server) handleDecline(req *dhcpv4.DHCPv4) {
 
 	if exists && lease != nil {
 		if pool := s.poolMgr.GetPool(lease.PoolID); pool != nil {
-			pool.MarkUnavailable(declinedIP)
+			// Take the address away from the client first, otherwise it stays assigned to the
+			// decliner and is offered to it again; then quarantine it
+			pool.Release(lease.IP)
+			pool.MarkUnavailable(lease.IP)
 		}
 	}
 }
